@@ -915,15 +915,21 @@ func (c Identifiers[V]) AddArgs(names []string, outersUsed *[]string) Identifier
 		ident, ok := c(name)
 		if outersUsed != nil {
 			if ok && !ident.IsConst {
+				// an attribute of the implicit map (see AddMap) is accessed via the map,
+				// so it is the map that needs to be captured
+				outer := name
+				if ident.ThisName != "" {
+					outer = ident.ThisName
+				}
 				found := false
 				for _, n := range *outersUsed {
-					if n == name {
+					if n == outer {
 						found = true
 						break
 					}
 				}
 				if !found {
-					*outersUsed = append(*outersUsed, name)
+					*outersUsed = append(*outersUsed, outer)
 				}
 			}
 		}
